@@ -1,12 +1,13 @@
 #!/bin/bash
 # usage: seed_eval.sh <PROP> <patch.diff> [tier] — applies a seeded change in a scratch worktree of /repo HEAD and runs the property's check on it
-prop=$1; patch=$2; tier=${3:-quick}
+here=$(cd "$(dirname "$0")" && pwd)
+prop=$1; patch=$(readlink -f $2); tier=${3:-quick}
 wt=/tmp/sv-$$
 git -C /repo worktree add --detach $wt HEAD >/dev/null 2>&1 || exit 9
 cd $wt && git apply $patch || { echo "PATCH DOES NOT APPLY"; cd /; git -C /repo worktree remove --force $wt; exit 9; }
 export GOFLAGS=-mod=mod GOPROXY=off GOSUMDB=off GOTOOLCHAIN=local
 go build ./... || { echo "BUILD FAILS"; }
-cd /verif && VERIF_REPO=$wt ./check $prop $tier 2>&1 | grep -E "^VIOLATION|KNOWN-FINDING|evaluations=|BUILD|INCONCL|^--- FAIL" | head -8
+cd $here && VERIF_REPO=$wt ./check $prop $tier 2>&1 | grep -E "^VIOLATION|KNOWN-FINDING|evaluations=|BUILD|INCONCL|^--- FAIL" | head -8
 echo "check-rc=${PIPESTATUS[0]}"
 git -C /repo worktree remove --force $wt
-rm -rf /verif/harness/.bin/alt-$(python3 -c "import hashlib;print(hashlib.sha1('$wt'.encode()).hexdigest()[:10])")
+rm -rf $here/harness/.bin/alt-$(python3 -c "import hashlib;print(hashlib.sha1('$wt'.encode()).hexdigest()[:10])")
